@@ -5,6 +5,10 @@ package brokerlab
 
 import (
 	"fmt"
+	"html"
+	"net/http/httptest"
+	"net/url"
+	"regexp"
 	"strings"
 	"testing"
 	"time"
@@ -237,6 +241,58 @@ func TestC11(t *testing.T) {
 						}
 					}
 				}
+			}
+		}
+		// ---- the HTTP keygen form is the other way to mint keys: same rule
+		handler := b.Svc.VerifKeygen().HTTP()
+		keyRe := regexp.MustCompile(`key\s*:\s*([A-Za-z0-9_-]{32})`)
+		for _, p := range parents {
+			for _, cc := range creationChannels {
+				for _, ttl := range []int{0, 3600} {
+					caseNo++
+					if !vk.Mine(caseNo) {
+						continue
+					}
+					form := url.Values{"key": {p.key}, "channel": {cc.ch}, "sub": {"on"}, "pub": {"on"}, "load": {"on"}, "ttl": {fmt.Sprint(ttl)}}
+					req := httptest.NewRequest("POST", "/keygen", strings.NewReader(form.Encode()))
+					req.Header.Set("Content-Type", "application/x-www-form-urlencoded")
+					rr := httptest.NewRecorder()
+					t0 := time.Now()
+					handler(rr, req)
+					t1 := time.Now()
+					w := map[string]interface{}{"parent": p.name, "entry": "http-form", "channel": cc.ch, "ttl": ttl}
+					m := keyRe.FindStringSubmatch(html.UnescapeString(rr.Body.String()))
+					rec.Inc("http_form_requests")
+					rec.Case(vk.Hash(lic, "http", p.name, cc.ch, ttl), true)
+					if !p.mint || !cc.valid {
+						if m != nil {
+							fail("key-issued-by-non-master/http-form", fmt.Sprintf("parent %s channel %q: the keygen form returned key %s", p.name, cc.ch, m[1]), w)
+						}
+						continue
+					}
+					if m == nil {
+						fail("valid-keygen-refused/http-form", fmt.Sprintf("master key, channel %q: no key in the form response", cc.ch), w)
+						continue
+					}
+					k, err := b.Cipher.DecryptKey([]byte(m[1]))
+					if err != nil || len(k) != 24 {
+						fail("returned-key-undecryptable", m[1], w)
+						continue
+					}
+					c11CheckFields(rec, fail, w, k, Perms("rwl"), p.contract, p.sig, p.master, int32(ttl), t0, t1)
+				}
+			}
+		}
+		// ---- and the exported CreateKey itself
+		for _, p := range parents {
+			caseNo++
+			if !vk.Mine(caseNo) {
+				continue
+			}
+			k, kerr := b.Svc.VerifKeygen().CreateKey(p.key, "a/b/", security.AllowReadWrite, time.Unix(0, 0))
+			rec.Case(vk.Hash(lic, "createkey", p.name), true)
+			if !p.mint && (kerr == nil || k != "") {
+				fail("key-issued-by-non-master/CreateKey", fmt.Sprintf("CreateKey with parent %s returned %q", p.name, k), map[string]interface{}{"parent": p.name})
 			}
 		}
 		c11EntryPoints(rec, b, lic, &caseNo)
